@@ -263,6 +263,18 @@ def _gen_net(rng, mode, allow_diverging=False):
                 c = rng.choice(cons)
                 c["ins"].append({"edge": {"src": ["w", wi, 0], "ad": []}, "static": False})
                 c["ins"].append({"edge": {"src": ["w", wi, 0], "ad": [["scale", [1, 2]]]}, "static": False})
+    if mode == "run" and not allow_diverging and rng.random() < 0.2:
+        # a producer that starts later than the composition, named last in a WeightedSum (its start becomes the
+        # initial time of the merger's output), DelayFixed of >= 1 consumer step downstream, connect-time pull:
+        # the connect-time request is clamped to a time for which the merger has not pulled anything yet
+        wss = [wi for wi, w in enumerate(pulls) if w["type"] == "ws" and w["ins"][-2]["src"][0] == "p"
+               and not prods[w["ins"][-2]["src"][1]]["outs"][w["ins"][-2]["src"][2]].get("static")]
+        if wss:
+            wi = rng.choice(wss)
+            prods[pulls[wi]["ins"][-2]["src"][1]]["off"] = unit * rng.choice([1, 2, 3])
+            st = _steps(rng, unit)
+            case["cons"] = cons = [{"steps": st, "pull_at_connect": True,
+                                    "ins": [{"edge": {"src": ["w", wi, 0], "ad": [["delay", st[0] * rng.choice([1, 1, 2])]]}, "static": False}]}]
     if mode == "run":
         if not allow_diverging:
             _make_converging(case)
@@ -471,6 +483,21 @@ CORPUS.append(_net(
                                {"edge": _e(("w", 0, 0), ("scale", [3, 1])), "static": False}], "pull_at_connect": True}],
     end=40))
 
+# stale connect-phase memo of the WeightedSum: X from day 0, Y starts on day 2 and is named last, DelayFixed(1 d)
+# downstream, consumer with connect-time pull: the run-phase request for day 2 must pull X for day 2
+CORPUS.append(_net(
+    [{"steps": [DAY], "outs": [_po("m", 0, 10), _po("", 1, 0)]},
+     {"steps": [DAY], "off": 2 * DAY, "outs": [_po("m", 1000, 0), _po("", 1, 0)]}],
+    [{"type": "ws", "ins": [_e(("p", 0, 0)), _e(("p", 0, 1)), _e(("p", 1, 0)), _e(("p", 1, 1))]}],
+    [{"steps": [DAY], "ins": [{"edge": _e(("w", 0, 0), ("delay", DAY)), "static": False}], "pull_at_connect": True}],
+    end=5 * DAY))
+
+# mask of the sum must not depend on the naming order: plain array first / masked array first
+for _ord in ([0, 1], [1, 0]):
+    CORPUS.append({"kind": "cells", "order": _ord, "step": 1, "nreq": 2, "prods": [
+        {"unit": "m", "v": _fj(10), "dv": _fj(1), "w": _fj(Fraction(1, 2)), "mask_v": None, "mask_w": None},
+        {"unit": "m", "v": _fj(100), "dv": _fj(1), "w": _fj(2), "mask_v": [False, False, True, False, False, False], "mask_w": None}]})
+
 # known finding F16: one pull-based component read by two consumers with different steps
 F16_CASE = _net([{"steps": [7], "outs": [_po("m", 1, 1), _po("", 1, 0)]}],
                 [{"type": "ws", "ins": [_e(("p", 0, 0)), _e(("p", 0, 1))]}],
@@ -532,6 +559,9 @@ def generate(rng, tier):
         else:
             # ~10% of the run-mode compositions may read a pull-based component at diverging times (F16)
             cases.append(_gen_net(rng, "run", allow_diverging=(i % 77 == 5)))
+    # gridded mergers with missing cells, masked and plain inputs in every naming order
+    for i in range(24 if tier == "quick" else 400):
+        cases.append(_gen_cells(rng))
     # scheduler level: compositions with pull-based components run by the real driver against the scheduler model
     m = 60 if tier == "quick" else 1500
     for i in range(m):
@@ -745,7 +775,7 @@ def _q(d):
 class _Prod(fm.TimeComponent):
     def __init__(self, spec, t0):
         super().__init__()
-        self._time = T(t0)
+        self._time = T(t0 + spec.get("off", 0))   # a producer may start later than the composition
         self.spec = spec
         self.k = 0
 
@@ -1150,6 +1180,206 @@ def _run_net(case):
     return obs
 
 
+# ----------------------------------------------------------------------------
+# gridded WeightedSum with missing cells ("cells" cases)
+# ----------------------------------------------------------------------------
+CELL_SHAPE = (2, 3)   # cells of UniformGrid((3, 4))
+
+
+def _gen_cells(rng):
+    """2-3 producers of gridded value / weight fields; some publish masked arrays (mask in the data, FLEX info),
+    others plain arrays; the WeightedSum names them in a random order"""
+    n = rng.choice([2, 2, 3])
+    prods = []
+    for i in range(n):
+        mv = [rng.random() < 0.3 for _ in range(6)] if rng.random() < 0.6 else None
+        if mv is not None and (all(mv) or not any(mv)):
+            mv[rng.randrange(6)] = not mv[0]
+        mw = [rng.random() < 0.25 for _ in range(6)] if rng.random() < 0.2 else None
+        if mw is not None and all(mw):
+            mw[0] = False
+        prods.append({"unit": rng.choice(["m", "m", "mm", "km"]), "v": _dy(rng), "dv": _dy(rng), "w": _dy(rng, small=True),
+                      "mask_v": mv, "mask_w": mw})
+    if all(p["mask_v"] is not None for p in prods):
+        prods[rng.randrange(n)]["mask_v"] = None     # at least one plain array
+    order = list(range(n))
+    rng.shuffle(order)
+    return {"kind": "cells", "prods": prods, "order": order, "step": rng.choice([1, 1, 2]), "nreq": rng.randint(1, 3)}
+
+
+class _GProd(fm.TimeComponent):
+    def __init__(self, spec, grid):
+        super().__init__()
+        self._time = T(0)
+        self.spec = spec
+        self.grid = grid
+        self.k = 0
+
+    def _next_time(self):
+        return self.time + D(DAY)
+
+    def _arr(self, base, mask):
+        import numpy as np
+
+        a = np.arange(6, dtype=float).reshape(CELL_SHAPE) / 4.0 + float(base)
+        if mask is not None:
+            return np.ma.masked_array(a, mask=np.array(mask, dtype=bool).reshape(CELL_SHAPE), fill_value=-9999.0)
+        return a
+
+    def _vals(self):
+        sp = self.spec
+        return {"V": self._arr(_fr(sp["v"]) + _fr(sp["dv"]) * self.k, sp["mask_v"]), "W": self._arr(_fr(sp["w"]), sp["mask_w"])}
+
+    def _initialize(self):
+        self.outputs.add(name="V", time=self.time, grid=self.grid, units=self.spec["unit"])
+        self.outputs.add(name="W", time=self.time, grid=self.grid, units="")
+        self.create_connector()
+
+    def _connect(self, start_time):
+        self.try_connect(start_time, push_data=self._vals())
+
+    def _validate(self):
+        pass
+
+    def _update(self):
+        self._time += D(DAY)
+        self.k += 1
+        for name, v in self._vals().items():
+            self.outputs[name].push_data(v, self.time)
+
+    def _finalize(self):
+        pass
+
+
+class _GCons(fm.TimeComponent):
+    def __init__(self, step, sink):
+        super().__init__()
+        self._time = T(0)
+        self.step = step
+        self.sink = sink
+
+    def _next_time(self):
+        return self.time + D(self.step * DAY)
+
+    def _initialize(self):
+        self.inputs.add(name="In", time=self.time, grid=None, units=None)
+        self.create_connector()
+
+    def _connect(self, start_time):
+        self.try_connect(start_time)
+
+    def _validate(self):
+        pass
+
+    def _update(self):
+        self._time += D(self.step * DAY)
+        self.sink(self.inputs["In"].pull_data(self.time))
+
+    def _finalize(self):
+        pass
+
+
+def _cells_of(d):
+    """flattened cells of a delivered array: exact rationals, None where the cell is missing"""
+    import numpy as np
+
+    mag = np.ma.asarray(fin.magnitude(d))
+    data = np.ma.getdata(mag).reshape(-1)
+    mask = np.ma.getmaskarray(mag).reshape(-1)
+    return [None if m else _fj(Fraction(float(x))) for x, m in zip(data, mask)]
+
+
+def _run_cells(case):
+    from finam.components.mergers import WeightedSum
+
+    grid = fm.UniformGrid((3, 4))
+    prods = [_GProd(p, grid) for p in case["prods"]]
+    names = [f"N{i}" for i in case["order"]]
+    ws = WeightedSum(inputs=names)
+    reqs = []
+    cur = {}
+    got = []
+    cons = _GCons(case["step"], lambda d: got.append(_cells_of(d)))
+    comp = fm.Composition(prods + [ws, cons], print_log=False)
+    for i, p in enumerate(prods):
+        p.outputs["V"] >> ws.inputs[f"N{i}"]
+        p.outputs["W"] >> ws.inputs[f"N{i}_weight"]
+    ws.outputs["WeightedSum"] >> cons.inputs["In"]
+    obs = {"reqs": reqs, "got": got, "outcome": "ok"}
+
+    def wrap(inp, name):
+        real = inp.pull_data
+
+        def pull_data(time, target=None):
+            d = real(time, target)
+            cur[name] = _cells_of(d)
+            return d
+
+        inp.pull_data = pull_data
+
+    for name in ws.inputs:
+        wrap(ws.inputs[name], name)
+    real_cb = ws.outputs["WeightedSum"].callback
+
+    def cb(caller, time):
+        cur.clear()
+        r = real_cb(caller, time)
+        if ws.status == fm.ComponentStatus.VALIDATED:
+            reqs.append([cur.get(nm) for n in names for nm in (n, n + "_weight")])
+        return r
+
+    ws.outputs["WeightedSum"].callback = cb
+    try:
+        comp.connect(T(0))
+        obs["uout"] = _unit_name(ws.outputs["WeightedSum"].info.units)
+        comp.run(start_time=T(0), end_time=T(case["nreq"] * case["step"] * DAY))
+    except Exception as e:  # noqa
+        obs["outcome"] = err_class(e)
+    return obs
+
+
+def _coq_cells(a):
+    return L(NONE if x is None else Some(Q(_fr(x))) for x in a) if a is not None else "[]"
+
+
+def _coq_case_cells(case, obs):
+    us = [UNIT_F[case["prods"][i]["unit"]] for i in case["order"]]
+    uout = UNIT_F.get(obs.get("uout", "m"), Fraction(1))
+    return C("CaseCells", L(Q(u) for u in us), Q(uout), N(6), L(L(_coq_cells(a) for a in r) for r in obs["reqs"]))
+
+
+def _coq_obs_cells(case, obs):
+    got = list(obs["got"])
+    while len(got) < len(obs["reqs"]):
+        got.append([])    # a request that did not deliver: forces a mismatch
+    return C("ObsCells", L(_coq_cells(a) for a in got[:max(len(obs["reqs"]), len(got))]))
+
+
+def _mon_cells(case, obs):
+    if obs.get("outcome") != "ok":
+        return f"gridded WeightedSum composition failed with {obs.get('outcome')}"
+    if len(obs["reqs"]) != len(obs["got"]):
+        return f"{len(obs['reqs'])} merger computations for {len(obs['got'])} consumer requests"
+    us = [UNIT_F[case["prods"][i]["unit"]] for i in case["order"]]
+    uout = UNIT_F.get(obs.get("uout", "m"), Fraction(1))
+    for r, (ins, out) in enumerate(zip(obs["reqs"], obs["got"])):
+        if any(a is None for a in ins):
+            return f"request {r}: the merger did not pull all of its inputs"
+        for k in range(6):
+            terms = [(ins[2 * j][k], ins[2 * j + 1][k]) for j in range(len(us))]
+            missing = any(v is None or w is None for v, w in terms)
+            if missing != (out[k] is None):
+                names = [f"N{i}" for i in case["order"]]
+                return (f"request {r}, cell {k}: inputs named {names}: the cell is {'missing' if missing else 'present'} in the terms "
+                        f"but {'missing' if out[k] is None else 'holds ' + str(_fr(out[k]))} in the sum")
+            if not missing:
+                exp = sum(_fr(v) * _fr(w) * u for (v, w), u in zip(terms, us)) / uout
+                if not _close(_fr(out[k]), exp):
+                    return f"request {r}, cell {k}: sum is {_fr(out[k])}, sum of value*weight is {exp}"
+    return None
+
+
+
 def run_impl(case):
     if case["kind"] == "sched":
         return {"sched": _schedlib.run_case(case["sched"])}
@@ -1157,6 +1387,8 @@ def run_impl(case):
         return _run_so(case)
     if case["kind"] == "si":
         return _run_si(case)
+    if case["kind"] == "cells":
+        return _run_cells(case)
     return _run_net(case)
 
 
@@ -1208,6 +1440,8 @@ def coq_case(case, obs):
 
 
 def _coq_case_stat(case, obs):
+    if case["kind"] == "cells":
+        return _coq_case_cells(case, obs)
     if case["kind"] == "so":
         ops = []
         npush = 0
@@ -1281,6 +1515,8 @@ def coq_obs(case, obs):
 
 
 def _coq_obs_stat(case, obs):
+    if case["kind"] == "cells":
+        return _coq_obs_cells(case, obs)
     if case["kind"] == "so":
         out = []
         for r in obs["res"]:
@@ -1396,6 +1632,7 @@ class _Walk:
         self.statv = {}
         self.memo = {}      # ws node -> (time, value) | "unknown"
         self.memo_note = None
+        self.stale = None
         self.dtp = {}       # DelayToPull adapter id -> pull history | "unknown"
         self.fetched = {}   # ws index -> {i: value}
         self.valid = set()
@@ -1477,14 +1714,17 @@ class _Walk:
                 if wi not in self.valid:
                     f = self.fetched.get(wi, {})
                     if len(f) == len(eds):
-                        if memo is not None and memo != "unknown" and memo[0] == t:
-                            vals = [memo[1]]
-                        else:
-                            v = self.wsum(wi, [f[i] for i in range(len(eds))])
-                            self.memo[n] = (t, v)
-                            vals = [v]
+                        # connect phase: answered from the start-time data, never remembered under t
+                        vals = [self.wsum(wi, [f[i] for i in range(len(eds))])]
                     return pos, self.scaled(vals, scale)
                 hit = memo is not None and memo != "unknown" and memo[0] == t
+                if memo is None and not starts_pull:
+                    exp = self.expect_node(n, t)
+                    self.stale = (f"WeightedSum node {n} answered the request for time {t} without pulling its inputs "
+                                  f"although it never pulled them for that time (answer taken from the connect phase)"
+                                  + (f"; sum of value*weight for time {t} is {[str(x) for x in exp]}" if exp else ""))
+                    self.memo[n] = "unknown"
+                    return pos, self.scaled(exp, scale)
                 if memo == "unknown":
                     hit = not starts_pull
                 if hit and not starts_pull:
@@ -1523,6 +1763,39 @@ class _Walk:
             else:
                 vals = [_fr(nd["bias"]) + sum(ins)]
         return pos, self.scaled(vals, scale)
+
+    # log-free expectation from the publications (used to explain a skipped pull)
+    def expect_edge(self, ed, t):
+        scale = Fraction(1)
+        for a in reversed(ed["ads"]):
+            init = self.inits.get(str(a["id"]))
+            if a["kind"] == "delay":
+                t = max(t - a["par"], init) if init is not None else t - a["par"]
+            elif a["kind"] == "dtp":
+                return None
+            else:
+                scale *= _fr(a["par"])
+        return self.scaled(self.expect_node(ed["src"], t), scale)
+
+    def expect_node(self, n, t, depth=0):
+        nd = self.nodes[n]
+        if depth > 4:
+            return None
+        if nd["kind"] == "out":
+            pubs = self.pubs[n]
+            if pubs and pubs[0][0] <= t <= pubs[-1][0]:
+                dmin = min(abs(p[0] - t) for p in pubs)
+                return [p[1] for p in pubs if abs(p[0] - t) == dmin]
+            return None
+        if nd["kind"] == "stat":
+            return [self.statv[n]] if n in self.statv else None
+        ins = [self.expect_edge(e, t) for e in self.pull_edges[nd["w"]]]
+        if any(x is None or len(x) != 1 for x in ins):
+            return None
+        ins = [x[0] for x in ins]
+        if nd["kind"] == "ws":
+            return [self.wsum(nd["w"], ins)]
+        return [_fr(nd["bias"]) + sum(ins)]
 
     @staticmethod
     def scaled(vals, scale):
@@ -1600,7 +1873,7 @@ class _Walk:
                         continue
                     cache[ci] = v
                 pos, acc = self.edge(ed, t, log, 0)
-                if self.fail:
+                if self.fail and not self.stale:
                     return self.fail
                 if pos is not None and pos != len(log):
                     self.bad(f"consumer input {ci} request for time {t}: unexpected extra trace entries {log[pos:pos + 3]}")
@@ -1611,6 +1884,11 @@ class _Walk:
                              f"(sum of value*weight of what the pull-based components received)")
                 if self.through_pull(ed):
                     self.reads_through_pull += 1
+            if self.stale:
+                # prefer the message that names the stale answer
+                if self.fail is None or "received" in self.fail:
+                    self.fail = self.stale + (f" - {self.fail}" if self.fail else "")
+                self.stale = None
             if self.fail is None and self.memo_note:
                 self.bad(self.memo_note)
             if self.fail:
@@ -1640,6 +1918,8 @@ def monitor(case, obs):
         return _mon_so(case, obs)
     if case["kind"] == "si":
         return _mon_si(case, obs)
+    if case["kind"] == "cells":
+        return _mon_cells(case, obs)
     return _Walk(case, obs).run(obs)
 
 
@@ -1657,6 +1937,8 @@ def nontrivial(case, obs):
         return n >= 3
     if case["kind"] == "si":
         return sum(1 for r in obs["res"] if r[0] == "pull" and r[3][0] == "ok") >= 3
+    if case["kind"] == "cells":
+        return bool(obs.get("got")) and any(p["mask_v"] or p["mask_w"] for p in case["prods"])
     w = _Walk(case, obs)
     w.run(obs)
     if w.reads_through_pull < 3:
@@ -1695,6 +1977,34 @@ def shrink_candidates(case):
     if case["kind"] == "sched":
         for c in _sc.shrink_candidates(case["sched"]):
             yield {"kind": "sched", "sched": c}
+        return
+
+    if case["kind"] == "cells":
+        if case["nreq"] > 1:
+            yield dict(case, nreq=1)
+        if case["step"] > 1:
+            yield dict(case, step=1)
+        if len(case["prods"]) > 2:
+            for i in range(len(case["prods"])):
+                ps = [p for j, p in enumerate(case["prods"]) if j != i]
+                order = [o - (1 if o > i else 0) for o in case["order"] if o != i]
+                yield dict(case, prods=ps, order=order)
+        for i, p in enumerate(case["prods"]):
+            for key in ("mask_w", "mask_v"):
+                if p[key] is not None and sum(p[key]) > 1:
+                    m = list(p[key])
+                    m[m.index(True)] = False
+                    ps = copy.deepcopy(case["prods"])
+                    ps[i][key] = m
+                    yield dict(case, prods=ps)
+            if p["mask_w"] is not None and p["mask_v"] is not None:
+                ps = copy.deepcopy(case["prods"])
+                ps[i]["mask_w"] = None
+                yield dict(case, prods=ps)
+            if p["unit"] != "m":
+                ps = copy.deepcopy(case["prods"])
+                ps[i]["unit"] = "m"
+                yield dict(case, prods=ps)
         return
 
     if case["kind"] in ("so", "si"):
